@@ -332,6 +332,14 @@ def search(ctx, hints):
     """smallest failing (family, order list, coordinate shape) of the predicate seq == loop on the real code"""
     p = P()
     _clear()
+    # corpus of minimised past failures first
+    import glob, json, os, io, contextlib
+    for path in sorted(glob.glob(os.path.join(C.VERIF, 'corpus', 'C08', '*.json'))):
+        rec = json.load(open(path))
+        with contextlib.redirect_stdout(io.StringIO()) as buf:
+            bad = replay(rec)
+        if bad:
+            return {'item': rec['item'], 'input': rec['input'], 'detail': buf.getvalue().strip().splitlines()[-1]}
     small = sorted(all_subsets(5), key=lambda s: (len(s), sum(s)))
     shapes = [(), (3,), (2, 3), None, (2, 2, 2)]        # None -> (len(ns), 2)
     for ns in small:
